@@ -23,6 +23,18 @@ NCPU = int(os.environ.get('VERIF_JOBS', '0')) or min(16, os.cpu_count() or 1)
 SEED = int(os.environ.get('VERIF_SEED', '0') or 0)
 
 
+_SGR = None
+
+
+def strip_sgr(data):
+    """removes terminal colour sequences (ESC [ ... m) from bytes or text: what `--color always` adds to the same output"""
+    global _SGR
+    import re
+    if _SGR is None:
+        _SGR = (re.compile(rb'\x1b\[[0-9;]*m'), re.compile('\x1b\\[[0-9;]*m'))
+    return _SGR[0].sub(b'', data) if isinstance(data, bytes) else _SGR[1].sub('', data)
+
+
 def child_setup():
     """preexec_fn for every process the checks start: die with the parent, bounded CPU time"""
     import ctypes
